@@ -41,6 +41,9 @@ def run(ctx):
             for name, alpha, bound in plans:
                 if ids is not None and name != "full":
                     continue
+                if natt > 1 and ctx.quick:
+                    # quick: the two-attempt variants use the reduced alphabet (six representatives per request kind)
+                    name, alpha = "reduced-2-attempts", [e1.REDUCED]
 
                 def on_exec(r, o, s, variant=variant):
                     res.evaluations += 1
